@@ -118,6 +118,11 @@ def rough_post(c, cms, threshold):
     sk.add(z3.ForAll([s_, c_], V.zbool(V.b_implies(rng_sc, V.b_and(AI(s_, c_) >= 0, V.i_lt(AI(s_, c_), H), AJ(s_, c_) >= 0, V.i_lt(AJ(s_, c_), W),
                                                                       at.val == Mv(s_, c_)))), patterns=[Mv(s_, c_)]))
     c.path.ghosts["gpk"] = (Mv, AI, AJ)
+    # the bound  M(s,c) >= cms[s,c,i,j]  kept for explicit instantiation by callers' clauses
+    from pyvc.contracts import Forall as _Forall
+
+    c.path.ghosts.setdefault("call_facts", {}).setdefault("sleap_nn.inference.peak_finding.find_global_peaks", []).append(
+        _Forall([S, C, H, W], lambda s, cc, i, j: V.f_le(cr([s, cc, i, j]), V.finite_real(Mv(V.zint(s), V.zint(cc))))))
 
     def pt(idx):
         s, cc, k = idx
